@@ -22,7 +22,7 @@ Fixpoint run_bytes {S} (step : S -> byte -> S * list pevent) (s : S) (l : bytes)
 Record r10 := { acc10 : bytes; rdead10 : bool }.
 Definition rinit10 : r10 := {| acc10 := []; rdead10 := false |}.
 
-Definition ref10_step (s : r10) (x : byte) : r10 * list pevent :=
+Definition ref10_step (s : r10) (x : N) : r10 * list pevent :=
   if rdead10 s then (s, [])
   else let a := acc10 s ++ [x] in
        match find_sub delim10 a with
@@ -49,7 +49,7 @@ Record r11 := { hs : h11; msg11 : bytes }.
 Definition rinit11 : r11 := {| hs := H0; msg11 := [] |}.
 Definition dead_r11 (s : r11) : bool := match hs s with Dead => true | _ => false end.
 
-Definition ref11_step (s : r11) (x : byte) : r11 * list pevent :=
+Definition ref11_step (s : r11) (x : N) : r11 * list pevent :=
   let m := msg11 s in
   let err := ({| hs := Dead; msg11 := m |}, [Raise K_FRAMING]) in
   match hs s with
